@@ -1,26 +1,31 @@
 #!/bin/bash
-# tools/seedall.sh [tier]: runs every seeded change against the checks named in its meta.json (detected_by)
-# on private copies of the repository (tools/seedrun.sh) and writes seeded/DETECTION.md.
+# tools/seedall.sh [tier] [streams]: runs every seeded change against the checks named in its meta.json (detected_by)
+# on private copies of the repository (tools/seedrun.sh) and writes seeded/DETECTION.md. With streams > 1 several
+# seeded changes are tried at the same time (each check then gets fewer cores; a check that hits its internal
+# deadline reports exhaustive:false and may miss - re-run such a line alone).
 T=${1:-quick}
+P=${2:-1}
 cd /verif
 out=seeded/DETECTION.md
-tmp=$(mktemp)
-for d in seeded/*/; do
-  n=$(basename $d)
-  [ -f $d/meta.json ] || continue
-  ids=$(python3 -c "import json;print(' '.join(json.load(open('$d/meta.json'))['detected_by']))")
-  tools/seedrun.sh seeded/$n $T $ids >> $tmp 2>&1
-done
+tmpd=$(mktemp -d)
+one() {
+  n=$1
+  ids=$(python3 -c "import json;print(' '.join(json.load(open('seeded/$n/meta.json'))['detected_by']))")
+  tools/seedrun.sh seeded/$n $2 $ids > $3/$n.txt 2>&1
+}
+export -f one
+ls seeded | while read n; do [ -f seeded/$n/meta.json ] && echo $n; done | xargs -P $P -I{} bash -c "one {} $T $tmpd"
+cat $tmpd/*.txt > $tmpd/all
 {
   echo "# Detection matrix ($T tier, $(date -u +%Y-%m-%dT%H:%MZ), /repo at $(git -C /repo log --format=%h -1), /verif at $(git -C /verif log --format=%h -1))"
   echo
   echo "Each seeded change applied to a private copy of /repo; exit=1 means the check reported a VIOLATION."
   echo
   echo '```'
-  cut -c1-220 $tmp
+  cut -c1-220 $tmpd/all
   echo '```'
   echo
-  echo "missed (exit=0): $(grep -c 'exit=0' $tmp); tooling errors (exit=2): $(grep -c 'exit=2' $tmp); detected (exit=1): $(grep -c 'exit=1' $tmp)"
+  echo "missed (exit=0): $(grep -c 'exit=0' $tmpd/all); tooling errors (exit=2): $(grep -c 'exit=2' $tmpd/all); detected (exit=1): $(grep -c 'exit=1' $tmpd/all)"
 } > $out
-rm -f $tmp
+rm -rf $tmpd
 tail -1 $out
